@@ -7,7 +7,7 @@
    frees two members at once) is answered by [-7] on both sides: such cases
    are checked by the laws only. *)
 From Coq Require Import ZArith List Bool.
-From V Require Import Base.Codec C14.Model C14.Laws C14.LawsPlace.
+From V Require Import Base.Codec C14.Model C14.Laws C14.LawsPlace C14.Recover.
 Import ListNotations.
 Open Scope Z_scope.
 
@@ -109,11 +109,19 @@ Definition entry (sel : Z) (toks : list Z) : list Z :=
              tag 4 ++ flat_map (fun k => match get_ancestors hn k with
                                          | Some l => eList ePos l | None => [-888] end) ans
          | None => bad_input end
-  (* sel 3: a real allocate trace; the action itself is not modelled, the entry only
-     validates the shape of the input — the substance is law 108 on the binds *)
+  (* sel 3: a real allocate trace.  Correspondence: the AllocatedHyperNode that
+     recoverAllocatedHyperNode rebuilds at session open for the job and every sub-job
+     (the allocate action itself is not modelled: its binds are judged by laws 108/109) *)
   | 3 => match run_dec (let* d := dZ in let* leaves := dList (dPair dPos (dList dZ)) in
                         let* job := dList dZ in let* pods := dList (dList dZ) in ret (d, leaves, job, pods)) toks with
-         | Some _ => [1] | None => bad_input end
+         | Some (d, leaves, job, pods) =>
+             let policy := nth 2 job 0 in
+             let pods' := map (fun p => (nth 0 p 0, Z.to_pos (nth 1 p 1), nth 2 p 0)) pods in
+             let '(hn, real) := trace_session d leaves in
+             let '(subs, jb) := recover_all hn real policy pods' in
+             tag 1 ++ eLca jb ++
+             tag 2 ++ eList (fun rs => fst rs :: eOptPos (snd rs)) subs
+         | None => bad_input end
   (* ---- laws on the implementation's results ---- *)
   | 101 => match run_dec (let* e := dEnv in let* objs := dList dObj in let* v := dView in ret (e, objs, v)) toks with
            | Some (e, objs, v) => eBool (law_view e objs v) | None => bad_input end
